@@ -298,6 +298,7 @@ func (x *c15Exp) pledge(signer, payee crypto.Key, h crypto.Hash, ts uint64) stri
 // ---------------------------------------------------------------- commit cut seam
 
 var c15ErrCut = errors.New("c15: process cut before commit")
+var c15ErrRunaway = errors.New("c15: more than 64 commits inside one WriteSnapshot call")
 
 type c15Cut struct {
 	failAt int32
@@ -316,9 +317,15 @@ func c15Hook(kind, dir string, writes int) error {
 		return nil
 	}
 	cut := v.(*c15Cut)
-	if cut.seen.Add(1) == cut.failAt {
+	n := cut.seen.Add(1)
+	if n == cut.failAt {
 		cut.fired.Store(true)
 		return c15ErrCut
+	}
+	if n > 64 {
+		// one WriteSnapshot call that keeps committing: stop it deterministically
+		// (no wall clock) so that the oracle can look at what it left behind
+		return c15ErrRunaway
 	}
 	return nil
 }
